@@ -326,7 +326,18 @@ func WindowFrameSet(partition Partition, expr parser.AnalyticClause) []WindowFra
 }
 
 func windowValues(ctx context.Context, scope *ReferenceScope, frame WindowFrame, partition Partition, expr parser.AnalyticFunction, valueCache map[int]value.Primary) ([]value.Primary, error) {
-	values := make([]value.Primary, 0, frame.High-frame.Low+1)
+	// Positions outside of the partition hold no rows: do not walk them (offsets may be huge).
+	if frame.Low < 0 {
+		frame.Low = 0
+	}
+	if len(partition)-1 < frame.High {
+		frame.High = len(partition) - 1
+	}
+	capacity := frame.High - frame.Low + 1
+	if capacity < 0 {
+		capacity = 0
+	}
+	values := make([]value.Primary, 0, capacity)
 
 	anScope := scope.CreateScopeForAnalytics()
 	for i := frame.Low; i <= frame.High; i++ {
@@ -618,6 +629,14 @@ func setNthValue(ctx context.Context, scope *ReferenceScope, partition Partition
 	for _, frame := range frameSet {
 		var val value.Primary = value.NewNull()
 		count := 0
+
+		// Positions outside of the partition hold no rows: do not walk them (offsets may be huge).
+		if frame.Low < 0 {
+			frame.Low = 0
+		}
+		if len(partition)-1 < frame.High {
+			frame.High = len(partition) - 1
+		}
 
 		for pos := frame.Low; pos <= frame.High; pos++ {
 			i := pos
